@@ -133,6 +133,7 @@ pub fn expected_buf(tag: u64, n: usize) -> u64 {
     fnv((0..n).map(|k| sbyte(tag ^ 0x5eed, k)))
 }
 
+#[allow(dead_code)]
 pub fn zero_buf(n: usize) -> u64 {
     fnv((0..n).map(|_| 0u8))
 }
@@ -173,6 +174,7 @@ impl<'a> Rd<'a> {
     }
 }
 
+#[allow(dead_code)]
 #[derive(Debug, Clone, Default)]
 pub struct Hello {
     pub main_tid: u32,
@@ -210,6 +212,7 @@ pub fn parse_hello(b: &[u8]) -> Option<Hello> {
     }
 }
 
+#[allow(dead_code)]
 #[derive(Debug, Clone, Default)]
 pub struct SpecRep {
     /// 0 = spawn returned Ok
@@ -228,6 +231,7 @@ pub struct SpecRep {
     pub canary_addr: u64,
 }
 
+#[allow(dead_code)]
 #[derive(Debug, Clone, Default)]
 pub struct LogRec {
     pub ptr: u64,
@@ -246,6 +250,7 @@ pub struct LogRec {
     pub damage_n: u32,
 }
 
+#[allow(dead_code)]
 #[derive(Debug, Clone, Default)]
 pub struct BatchReport {
     pub n: usize,
